@@ -54,6 +54,10 @@ def gen_request(rng, N):
             l.append(rng.choice(["corner", "edge", "core"]))
         rng.shuffle(l)
         return ("strs", rng.choice([list, tuple])(l))
+    if rng.random() < 0.5 and N >= 3:
+        # numeric but not integer indices: rejected, never silently truncated
+        f = rng.choice([[0.5, 1.5], [0, 1.25], (float(N - 1) - 0.5,), list(np.linspace(0, N - 1, 4) + 0.25), [np.float64(0.75)]])
+        return ("bad", f)
     return ("bad", rng.choice([3.5, [0, "edge"], {"a": 1}, ["edge", 1]]))
 
 
